@@ -204,6 +204,9 @@ def gen_lp(rng):
     return [s, p]
 
 
+LINE_TERMS = '\n\r\x0b\x0c\x1c\x1d\x1e\x85\u2028\u2029'
+
+
 def prefix_lines_keepends(s: str, p: str) -> str:
     """THE PROPERTY, written independently of the implementation: every non-empty line of the emitted text gets the prefix; the text is
     otherwise untouched (every line keeps its own terminator, also the last one)"""
@@ -1039,8 +1042,14 @@ def main(chk: core.Check, replay: typing.Optional[str] = None) -> int:
     for i, (s, p) in enumerate(lps):
         got = impl_lp[i].get('ok')
         bump('lineprefix_cases')
-        if got != lineprefix_oracle(s, p):
-            bad_oracle.append({'level': 'lineprefix', 's': s, 'prefix': p, 'implementation': impl_lp[i], 'expected': lineprefix_oracle(s, p)})
+        exp_lp = prefix_lines_keepends(s, p)          # the property, independent of the implementation
+        if got != exp_lp:
+            # known-finding instance only with the trigger (a final or non-LF terminator) AND the quirk-faithful model's exact output
+            trig = s != '' and (s[-1:] in LINE_TERMS or any(ch in s for ch in LINE_TERMS if ch != '\n'))
+            if kf5_live and trig and got == lineprefix_oracle(s, p):
+                bump('known_finding_instances_lineprefix_terminator')
+            else:
+                bad_oracle.append({'level': 'lineprefix', 's': s, 'prefix': p, 'implementation': impl_lp[i], 'expected': exp_lp})
         if ok_model:
             bump('traces_lineprefix')
             if mlp[i] != 'OK ' + enc(got if got is not None else '\0'):
@@ -1269,6 +1278,9 @@ def main(chk: core.Check, replay: typing.Optional[str] = None) -> int:
         b, s = r.get('b', r), r.get('s', r)
         bump('diff_both_ok', 'ok' in b and 'ok' in s)
         bump('diff_both_fail', 'err' in b and 'err' in s)
+        if 'err' in b and 'err' in s:
+            bump('diff_both_fail_class_%s' % b['err'])
+            bump('diff_both_fail_with_lineno', b.get('lineno') is not None and s.get('lineno') is not None)
         for flag in ('lstrip_blocks', 'trim_blocks', 'keep_trailing_newline', 'line_statement_prefix', 'block_start_string'):
             bump('diff_opt_' + flag, flag in c.get('opts', {}))
         bump('diff_has_indented_endraw', bool(re.search(r'\n[ \t]+(\{%|<%)[-+]? endraw', text)))
@@ -1286,6 +1298,11 @@ def main(chk: core.Check, replay: typing.Optional[str] = None) -> int:
                     continue
             diff_bad.append((c, b, s))
     samples += [{'template': c['templates']['main'], 'ctx': c['ctx'], 'opts': c['opts']} for c in diff_cases[:5]]
+    # the differential is about OUTPUT: at most ~15 % of the generated templates may fail in both engines (measured every run)
+    frac_fail = stats.get('diff_both_fail', 0) / max(1, stats.get('diff_templates', 1))
+    chk.coverage['differential_both_fail_fraction'] = round(frac_fail, 4)
+    if frac_fail > 0.20:
+        bad_model.append({'tie': 'differential generator', 'detail': 'both-fail fraction %.3f exceeds the floor (0.20): the grammar no longer exercises rendering' % frac_fail})
     if diff_bad:
         c, b, s = diff_bad[0]
 
